@@ -629,7 +629,232 @@ def sub_near(case):
     return {'devs': acc.devs, 'n': acc.n, 'nt': True if acc.compared else [], 'out': acc.out}
 
 
-SUBS = {'dest': sub_dest, 'keys': sub_keys, 'cross': sub_cross, 'cross_hd': sub_cross_hd, 'near': sub_near}
+# ---------------------------------------------------------------------------------- sub: keyhist
+# Histories on ONE key object that is then used as a destination.  Every event is a query (or a documented
+# state change) of the key; none of them changes which destination the key stands for, except network_change
+# (then the expectation follows the new network) - see RULE.
+_ENCS = (None, 'base58', 'bech32')
+_STYPES = (None, 'p2pkh', 'p2sh', 'p2wpkh', 'p2wsh', 'p2sh_p2wpkh', 'p2tr')
+KEY_EVENTS = ['address(%s,%s)' % (e, t) for e in _ENCS for t in _STYPES] + [
+    'address(prefix=other_p2pkh)', 'address(prefix=other_p2sh,p2sh)', 'address(prefix=other_hrp,bech32)',
+    'address(compressed=False)', 'address(compressed=True)', 'address_uncompressed()', 'address_obj', 'hash160',
+    'public_byte', 'wif()', 'wif_public()', 'public()', 'as_dict()', 'network_change(other)', 'network_change(own)',
+    'Output(address=k)', 'add_output(address=k)']
+
+
+def _other_net(net):
+    return 'testnet' if nets.p2pkh_ver(net) != nets.p2pkh_ver('testnet') else 'bitcoin'
+
+
+def _key_event(k, ev, st):
+    """Apply one event to key k; st = {'net': current network, 'own': ..., 'returned': [address strings]}"""
+    from bitcoinlib.transactions import Output
+    other = _other_net(st['own'])
+    r = None
+    if ev.startswith('address(') and '=' not in ev:
+        e, t = ev[8:-1].split(',')
+        kw = {}
+        if e != 'None':
+            kw['encoding'] = e
+        if t != 'None':
+            kw['script_type'] = t
+        r = k.address(**kw)
+    elif ev == 'address(prefix=other_p2pkh)':
+        r = k.address(prefix=nets.p2pkh_ver(other))
+    elif ev == 'address(prefix=other_p2sh,p2sh)':
+        r = k.address(prefix=nets.p2sh_ver(other), script_type='p2sh')
+    elif ev == 'address(prefix=other_hrp,bech32)':
+        r = k.address(prefix=nets.hrp(other), encoding='bech32')
+    elif ev == 'address(compressed=False)':
+        r = k.address(compressed=False)
+    elif ev == 'address(compressed=True)':
+        r = k.address(compressed=True)
+    elif ev == 'address_uncompressed()':
+        r = k.address_uncompressed()
+    elif ev == 'address_obj':
+        r = k.address_obj.address
+    elif ev == 'hash160':
+        k.hash160
+    elif ev == 'public_byte':
+        k.public_byte
+    elif ev == 'wif()':
+        k.wif()
+    elif ev == 'wif_public()':
+        k.wif_public() if hasattr(k, 'wif_public') else k.wif()
+    elif ev == 'public()':
+        k.public()
+    elif ev == 'as_dict()':
+        k.as_dict()
+    elif ev == 'network_change(other)':
+        k.network_change(other)
+        st['net'] = other
+    elif ev == 'network_change(own)':
+        k.network_change(st['own'])
+        st['net'] = st['own']
+    elif ev == 'Output(address=k)':
+        Output(VAL, address=k, network=st['net'])
+    elif ev == 'add_output(address=k)':
+        _tx_out(st['net'], address=k)
+    else:
+        raise ValueError(ev)
+    if isinstance(r, str):
+        st['returned'].append(r)
+
+
+def _ref_script_of_address(a):
+    """reference script of an address string under any network of the golden table, or None"""
+    hit = RA.decode_address(a) if isinstance(a, str) and a else []
+    if not hit:
+        return None
+    n, kd, pl, v = hit[0]
+    return _dest(n, kd if kd in ('p2pkh', 'p2sh') else 'wit', v or 0, pl)[1]
+
+
+def sub_keyhist(case):
+    """case = [net, witness_type, form ('hd_priv'|'hd_pub'|'key'), secret, [events]]"""
+    from bitcoinlib.transactions import Output
+    from bitcoinlib.keys import HDKey, Key
+    net, wt, form, d, hist = case
+    pub = secp.ser(secp.pub(d))
+    pubu = secp.ser(secp.pub(d), False)
+    h = codec.hash160(pub)
+    acc = _Acc()
+    if form == 'hd_priv':
+        k = HDKey(key=d.to_bytes(32, 'big'), chain=b'\x07' * 32, network=net, witness_type=wt)
+    elif form == 'hd_pub':
+        k = HDKey(key=pub, chain=b'\x07' * 32, network=net, witness_type=wt, is_private=False)
+    else:
+        k = Key(d.to_bytes(32, 'big'), network=net)
+    st = {'net': net, 'own': net, 'returned': []}
+    refused = 0
+    for ev in hist:
+        try:
+            _key_event(k, ev, st)
+        except Exception:
+            refused += 1          # a refused query (e.g. bech32 address of an uncompressed key) is no event
+    cur = st['net']
+    det0 = {'net': net, 'witness_type': wt, 'form': form, 'secret': d, 'history': hist, 'network_now': cur}
+    hl = 'after_%d_calls' % len(hist)
+
+    def classify(way, obs, a, spk, std):
+        """deviation classes of an output that should be the key's own destination (a, spk, std)"""
+        acc.n += 1
+        if 'exc' in obs:
+            asked_unc = any(e in ('address(compressed=False)', 'address_uncompressed()') for e in hist)
+            if asked_unc and obs['exc'] == 'BKeyError' and 'Uncompressed keys' in obs['msg']:
+                acc.dev('%s|key_history|key_refused_as_uncompressed_after_an_uncompressed_address_query' % way,
+                        dict(det0, msg=obs['msg']))
+            else:
+                acc.dev('%s|key_history|refused_%s' % (way, obs['exc']), dict(det0, msg=obs['msg']))
+            return
+        acc.compared += 1
+        C = []
+        hu = codec.hash160(pubu)
+        unc = {'legacy': _dest(cur, 'p2pkh', 0, hu), 'segwit': _dest(cur, 'wit', 0, hu),
+               'p2sh-segwit': _dest(cur, 'p2sh', 0, codec.hash160(b'\x00\x14' + hu))}[wt]
+        if obs['script'] != spk:
+            if obs['script'] == unc[1]:
+                C.append('script_pays_the_uncompressed_key_after_an_uncompressed_address_query')
+            elif obs['script'] == _ref_script_of_address(obs['address']) and obs['address'] in st['returned']:
+                C.append('script_follows_an_earlier_address_query')
+            else:
+                C.append('script_unexplained')
+        if obs['address'] != a:
+            if obs['address'] == unc[0]:
+                C.append('address_of_the_uncompressed_key_after_an_uncompressed_address_query')
+            elif obs['address'] in st['returned']:
+                C.append('reported_address_is_the_result_of_an_earlier_address_query')
+            elif obs['address'] is None:
+                C.append('address_raises_%s' % obs.get('address_exc'))
+            else:
+                C.append('address_unexplained')
+        if obs['type'] != std:
+            C.append('type_%s_reported_as_%s' % (std, _lab(obs['type'])))
+        # inverse law, independent of what the expectation is
+        back = _ref_script_of_address(obs['address'])
+        if obs['address'] and back is not None and back != obs['script']:
+            C.append('reported_address_and_script_are_not_inverse')
+        if obs['net'] != cur:
+            C.append('output_network_differs_from_key_network')
+        for c in C:
+            acc.dev('%s|key_history|%s' % (way, c), dict(det0, got_script=obs['script'].hex(), got_address=obs['address'],
+                                                         got_type=obs['type'], expected_address=a,
+                                                         expected_script=spk.hex()))
+        if not C:
+            acc.label('ok_%s_%s' % (form, hl))
+
+    def consistent(way, obs, want_addr=None, obj=None):
+        """an output built from a re-used Address object / returned string: the inverse law and identity"""
+        acc.n += 1
+        contradictory = obj is not None and (
+            (obj.encoding == 'base58' and obj.script_type in ('p2wpkh', 'p2wsh', 'p2tr')) or
+            (obj.encoding == 'bech32' and obj.script_type in ('p2pkh', 'p2sh', 'p2sh_p2wpkh', 'p2sh_p2wsh')))
+        if obj is not None and not contradictory:
+            # an explicitly requested prefix that is not the one of the object's own script type and network
+            n = obj.network.name
+            own = nets.hrp(n) if obj.encoding == 'bech32' else \
+                (nets.p2pkh_ver(n) if obj.script_type in ('p2pkh', 'p2pk') else nets.p2sh_ver(n))
+            contradictory = obj.prefix != own
+        if 'exc' in obs:
+            acc.label('reused_object_refused')
+            return
+        acc.compared += 1
+        C = []
+        if want_addr is not None and obs['address'] != want_addr:
+            C.append('output_address_differs_from_the_object_address')
+        back = _ref_script_of_address(obs['address'])
+        if back is not None and back != obs['script']:
+            # (an Address object the caller asked for with a script type that contradicts its encoding, e.g.
+            #  key.address(script_type='p2wpkh') in base58, is named apart from objects the library made itself)
+            p2shseg = obj is not None and obj.script_type in ('p2sh_p2wpkh', 'p2sh_p2wsh') and \
+                obs['script'] == RA.spk_witness(0, bytes(obj.hash_bytes))
+            C.append('address_object_with_contradictory_script_type_encoding_or_prefix_gives_script_of_the_type_not_of_the_address'
+                     if contradictory else 'p2sh_segwit_address_object_gives_witness_v0_script_over_the_script_hash'
+                     if p2shseg else 'reported_address_and_script_are_not_inverse')
+        if back is None and obs['type'] in FIVE and obs['address']:
+            C.append('standard_type_with_invalid_address')
+        for c in C:
+            acc.dev('%s|key_history|%s' % (way, c), dict(
+                det0, got_script=obs['script'].hex(), got_address=obs['address'], object_address=want_addr,
+                object_type=[getattr(obj, 'script_type', None), getattr(obj, 'encoding', None)]))
+        if not C:
+            acc.label('ok_reused_%s' % hl)
+
+    if form != 'key':
+        kind, ver, payload = {'legacy': ('p2pkh', 0, h), 'segwit': ('wit', 0, h),
+                              'p2sh-segwit': ('p2sh', 0, codec.hash160(b'\x00\x14' + h))}[wt]
+        a, spk, std = _dest(cur, kind, ver, payload)
+        classify('Output(address=HDKey)', _observe(lambda: Output(VAL, address=k, network=cur)), a, spk, std)
+        classify('add_output(address=HDKey)', _observe(lambda: _tx_out(cur, address=k)), a, spk, std)
+        first = _observe(lambda: Output(VAL, address=k, network=cur))
+        again = _observe(lambda: Output(VAL, address=k, network=cur))
+        if again != first:      # building an output must not change what the next one looks like
+            classify('Output(address=HDKey) second time', again, a, spk, std)
+    # the Address object the key hands out (whatever it is now) and the string of a default query
+    try:
+        ao = k.address_obj
+        ao_addr = ao.address
+    except Exception:
+        ao = None
+    if ao is not None:
+        consistent('Output(address=key.address_obj)', _observe(lambda: Output(VAL, address=ao, network=cur)), ao_addr,
+                   ao)
+        consistent('add_output(address=key.address_obj)', _observe(lambda: _tx_out(ao.network.name, address=ao)),
+                   ao_addr, ao)
+    try:
+        s_now = k.address()
+    except Exception:
+        s_now = None
+    if s_now and RA.decode_address(s_now) and any(x[0] == cur for x in RA.decode_address(s_now)):
+        consistent('Output(address=key.address())', _observe(lambda: Output(VAL, address=s_now, network=cur)), s_now)
+    _judge_any(acc, 'Output(public_key=key.public_byte)|key_history', cur, codec.hash160(bytes(k.public_byte)),
+               _observe(lambda: Output(VAL, public_key=k.public_byte, network=cur)))
+    return {'devs': acc.devs, 'n': acc.n, 'nt': True if acc.compared else [],
+            'out': dict(acc.out, **({'history_calls_refused': refused} if refused else {}))}
+
+
+SUBS = {'dest': sub_dest, 'keys': sub_keys, 'cross': sub_cross, 'cross_hd': sub_cross_hd, 'near': sub_near,
+        'keyhist': sub_keyhist}
 
 
 # ------------------------------------------------------------------------------- enumeration
@@ -710,6 +935,23 @@ def run(ctx):
                 for net in nets.NAMES:
                     cases.append([net, cls, name, s.hex()])
         ctx.pmap('near', cases)
+    if want('keyhist'):
+        import itertools
+        depth = 2 if q else 3
+        hnets = ['bitcoin', 'litecoin'] if q else ['bitcoin', 'litecoin', 'testnet', 'dogecoin']
+        cases = []
+        for L in range(0, depth + 1):
+            for hist in itertools.product(KEY_EVENTS, repeat=L):
+                if L == 3 and not any(e.startswith('address') or e.startswith('network') for e in hist[:2]):
+                    continue    # (depth 3 only behind a state-changing prefix; pure getters are covered at depth 2)
+                for net in (hnets if L <= 2 else hnets[:1]):
+                    for wt in ('legacy', 'segwit', 'p2sh-segwit'):
+                        for form in (('hd_priv', 'hd_pub') if L <= 1 else ('hd_priv',)):
+                            cases.append([net, wt, form, secrets[L % 3], list(hist)])
+                    if L <= 2:
+                        cases.append([net, 'legacy', 'key', secrets[L % 3], list(hist)])
+        ctx.pmap('keyhist', cases)
+        ctx.note('key_histories', {'events': KEY_EVENTS, 'max_length': depth, 'networks': hnets, 'cases': len(cases)})
     ctx.note('bounds', {
         'networks': nets.NAMES, 'witness_versions': '0..16', 'program_lengths': [2, 20, 32, 40],
         'payloads_per_length': len(_payloads(20, seed, q)), 'destinations_per_network': len(D),
